@@ -507,6 +507,7 @@ func cmdCheck(args []string) {
 				"samples":      samples, "functions_under_contract": fl, "by_backend": byBackend, "solver_time_s": solverTime, "slowest": slow,
 				"known_findings": knownHit, "undecided_functions": genErrNames, "undecided_clauses": undecided, "not_discharged": failed + unknown - len(knownHit),
 				"unmodelled_external_calls_havoced": unm,
+				"assumed_clauses":                   assumedScan(g, fgs),
 				"returns_found_unreachable_by_cover": unreachableAll,
 			},
 			Assumptions: append([]string{
@@ -722,4 +723,59 @@ func (g *Gen) sccRep(f *ssa.Function) *ssa.Function {
 		}
 	}
 	return rep
+}
+
+// assumedScan: mechanical list of everything in the contracts that is assumed rather than proved (besides the
+// trusted external contracts, which are listed separately): definitional postconditions, site assumptions,
+// axioms (lemmas are proved), requires clauses of the API entry points, and what the generator assumed itself.
+func assumedScan(g *Gen, fgs []*FuncGen) []string {
+	var out []string
+	var keys []string
+	for k := range g.Spec.Contracts {
+		keys = append(keys, k)
+	}
+	sort.Strings(keys)
+	api := map[string]bool{"Search": true, "Compile": true, "MustCompile": true, "Expression.Search": true}
+	for _, k := range keys {
+		c := g.Spec.Contracts[k]
+		if c.Trusted {
+			continue
+		}
+		for _, en := range c.Ensures {
+			if en.Defines {
+				out = append(out, "defines "+shortKey(k)+": "+en.Text)
+			}
+		}
+		for _, sa := range c.Sites {
+			if sa.Assume {
+				out = append(out, "assume at "+sa.Callee+" in "+shortKey(k)+": "+sa.C.Text)
+			}
+		}
+		if api[shortKey(k)] {
+			for _, r := range c.Requires {
+				out = append(out, "requires of API function "+shortKey(k)+" (no caller in the repository): "+r.Text)
+			}
+		}
+	}
+	n := 0
+	for _, ax := range g.Spec.Axioms {
+		if ax.LemmaIdx == 0 && ax.DefOf == nil {
+			n++
+			t := ax.Text
+			if len(t) > 160 {
+				t = t[:160] + "..."
+			}
+			out = append(out, "axiom "+ax.Pos+": "+t)
+		}
+	}
+	seen := map[string]bool{}
+	for _, fg := range fgs {
+		for _, a := range fg.assumed {
+			if !seen[a] {
+				seen[a] = true
+				out = append(out, "generator: "+a)
+			}
+		}
+	}
+	return out
 }
